@@ -110,7 +110,9 @@ pub struct Meta {
 const COMMON_ASSUME: &str = "harness generators, wire model, reference decoder (written from the OASIS specs) and the pinned grammar of DESIGN.md §5 are trusted";
 
 fn m(level: &'static str, rule: &'static str, assumptions: &'static [&'static str]) -> Meta {
-    Meta { level, rule, assumptions, two_profiles: false, compare_digests: false, exhaustive_when_complete: false }
+    // every check runs under both build profiles (relcheck: debug assertions + overflow checks; release:
+    // what users ship), so behaviour that differs between them cannot hide in either
+    Meta { level, rule, assumptions, two_profiles: true, compare_digests: false, exhaustive_when_complete: false }
 }
 
 const BOUNDS: &str = "field lengths <= 65,535; user-property lists <= 6; topic lists <= 8";
